@@ -89,6 +89,8 @@ func main() {
 			n = 300
 		}
 		os.Exit(uisim.Transcript(seed, n))
+	case "toolprobe":
+		os.Exit(uisim.ToolProbe(seed))
 	default:
 		fmt.Fprintln(os.Stderr, "unknown command", cmd)
 		os.Exit(2)
